@@ -229,3 +229,5 @@ def _f_s3_total_in_excl(case: dict[str, Any], v: dict[str, Any]) -> bool:
 FINDINGS = {
     "s3-multi-inverter-split-leaves-group-total-inside-battery-exclusion-zone": _f_s3_total_in_excl,
 }
+
+LEVEL_NOTE += ' Rounds 13-14: manager tier also after an inverter reported narrower bounds (message stamped before the newest battery message).'
